@@ -1,19 +1,138 @@
 """C15 - every input terminates."""
 from vf.framework import Case, Mutant
+from vf.props import shapes as S
 
 PROP = "C15"
 LEVEL = "other"
-FUNCTIONS = []
-MIN_OBLIGATIONS = 0
-EXPLANATION = "under construction: scanner/parser variants"
-TRUSTED = []
-ASSUMPTIONS = []
+H = "vf.contracts.c_scanner."
+SC = "a816.parse.scanner.Scanner."
+LX = "a816.parse.scanner_states."
+FUNCTIONS = [SC + "scan", SC + "next", SC + "backup", SC + "peek", SC + "accept", SC + "accept_prefix", SC + "accept_run", SC + "ignore", SC + "ignore_run", SC + "emit",
+             SC + "_handle_line", LX + "lex_initial", LX + "lex_identifier", LX + "lex_quoted_string", LX + "accept_opcode", LX + "lex_expression", LX + "lex_operand",
+             LX + "lex_opcode_index", LX + "lex_opcode_size", LX + "lex_opcode", LX + "lex_keyword", LX + "lex_number"]
+MIN_OBLIGATIONS = 30
+EXPLANATION = ("Scanner termination is proved on the real code over a SYMBOLIC input (symbolic length and characters): every scanner loop "
+               "(accept_run, the ';' and '/* */' comment loops, the quoted-string loop, lex_expression's loop) is cut at an invariant with the "
+               "variant 'characters left' checked at every call site reached from lex_initial (so each candidates/negate combination is covered, "
+               "including end of input where next() returns None without advancing); lex_initial is proved to consume at least one character or "
+               "raise; Scanner.scan's driver loop is proved with that contract.  Parser and expansion termination, and the token-level sweep, are the bounded part.")
+TRUSTED = ["vf/specs/lexmodel.py (state-function contract used for the driver loop; established by lex_initial_progress_contract)"]
+ASSUMPTIONS = ["membership of a symbolic 3-character candidate in the opcode table is encoded exactly (one disjunct per mnemonic)",
+               "File.append only records the line text (ghost for error messages); it is not tracked in these obligations",
+               "parser loops (bounded by the EOF token) and expansion recursion (strict sub-ASTs, .for counts, CPython's recursion limit for macro recursion) are "
+               "covered by the bounded sweep only", "lex_macro_args_def / lex_macro_arg are unreachable from the assembler's entry points (dead code) and not claimed"]
+
+
+def scanner(B, with_lines=False):
+    inp = B.symseq("input", kind="str")
+    pos, start = B.int("pos"), B.int("start")
+    f = B.inst("a816.parse.tokens.File", filename="t.s", lines=B.list([]))
+    return B.inst("a816.parse.scanner.Scanner", initial_state=B.I.lookup_name.__self__ and None, tokens=B.list([]), line_offset=B.int("line_offset"), current_line=B.int("current_line"),
+                  input=inp, pos=pos, start=start, file=f, state=None)
+
+
+def _havoc_scanner(var="self", extra=None):
+    def havoc(I, st):
+        s = st.env[var]
+        o = I.hmut(st, s)
+        for fld in ("pos", "start", "line_offset", "current_line"):
+            o.fields[fld] = I.fresh_int(fld)
+        I.hmut(st, o.fields["tokens"]).items = []
+        f = o.fields["file"]
+        I.hmut(st, I.hget(st, f).fields["lines"]).items = []
+        if extra:
+            return extra(I, st)
+    return havoc
+
+
+def _modifies(var="self"):
+    def m(I, st):
+        s = st.env[var]
+        o = I.hget(st, s)
+        f = o.fields["file"]
+        return {s.oid, o.fields["tokens"].oid, f.oid, I.hget(st, f).fields["lines"].oid}
+    return m
+
+
+def _havoc_quoted_c(I, st):
+    """local `c` of lex_quoted_string: the character just read (arbitrary) or None at end of input"""
+    from vf.pyvc.models import SymChar
+    s1 = st.fork()
+    st.env["c"] = SymChar(I.fresh_int("c"))
+    s1.env["c"] = None
+    s = s1.env["s"]
+    # None is only returned by next() at end of input
+    o = I.hget(s1, s)
+    s1.pc.append(o.fields["pos"] >= I.models.seq_len(o.fields["input"]))
+    return [st, s1]
+
+
+def _ghost(var):
+    def g(I, st):
+        return {"pos0": I.hget(st, st.env[var]).fields.get("pos", 0)}
+    return g
+
+
+MODELS = {"lex_expression": "sublexer_model", "lex_number": "lex_number_model", "lex_identifier": "lex_identifier_model", "lex_quoted_string": "sublexer_model",
+          "lex_keyword": "sublexer_model", "lex_opcode_index": "sublexer_model", "lex_operand": "sublexer_model", "lex_opcode_size": "sublexer_model", "lex_opcode": "sublexer_model"}
+
+
+def setup_engine(E):
+    from vf.pyvc.loops import LoopSpec
+    for name, model in MODELS.items():
+        E.I.contracts[LX + name] = "vf.specs.lexmodel." + model
+    L = E.I.loop_specs
+    L[(SC + "accept_run", 0)] = LoopSpec("Scanner.accept_run", H + "inv_self", variant=H + "var_self", havoc=_havoc_scanner("self"), modifies=_modifies("self"), ghost=_ghost("self"))
+    L[(LX + "lex_initial", 0)] = LoopSpec("lex_initial#semicolon-comment", H + "inv_s", variant=H + "var_s", havoc=_havoc_scanner("s"), modifies=_modifies("s"), ghost=_ghost("s"))
+    L[(LX + "lex_initial", 1)] = LoopSpec("lex_initial#block-comment", H + "inv_s", variant=H + "var_s", havoc=_havoc_scanner("s"), modifies=_modifies("s"), ghost=_ghost("s"))
+    L[(LX + "lex_quoted_string", 0)] = LoopSpec("lex_quoted_string", H + "inv_s", variant=H + "var_quoted", havoc=_havoc_scanner("s", _havoc_quoted_c), modifies=_modifies("s"), ghost=_ghost("s"))
+    L[(LX + "lex_expression", 0)] = LoopSpec("lex_expression", H + "inv_s", variant=H + "var_s", havoc=_havoc_scanner("s"), modifies=_modifies("s"), ghost=_ghost("s"))
+    L[(SC + "scan", 0)] = LoopSpec("Scanner.scan#driver", H + "inv_self", variant=H + "var_self", havoc=_havoc_scanner("self"), modifies=_modifies("self"), ghost=_ghost("self"))
+
+
+def shape_scanner(B):
+    from vf.pyvc.values import FuncVal
+    inp = B.symseq("input", kind="str")
+    f = B.inst("a816.parse.tokens.File", filename="t.s", lines=B.list([]))
+    sc = B.inst("a816.parse.scanner.Scanner", initial_state=FuncVal(LX + "lex_initial"), tokens=B.list([]), line_offset=B.int("line_offset"),
+                current_line=B.int("current_line"), input=inp, pos=B.int("pos"), start=B.int("start"), file=f, state=FuncVal(LX + "lex_initial"))
+    return {"s": sc}
+
+
+def shape_scan(B):
+    from vf.pyvc.values import FuncVal
+    sc = B.inst("a816.parse.scanner.Scanner", initial_state=FuncVal(LX + "lex_initial"), tokens=B.list([]), line_offset=0, current_line=0, pos=0, start=0)
+    return {"s": sc, "name": "t.s", "text": B.symseq("input", kind="str")}
+
+
+SUBLEXERS = ["lex_identifier", "lex_quoted_string", "lex_number", "lex_keyword", "lex_opcode_index", "lex_expression", "lex_operand", "lex_opcode_size", "lex_opcode"]
+
+
+def shape_sub(name):
+    def sh(B):
+        from vf.pyvc.values import FuncVal
+        d = shape_scanner(B)
+        d["fn"] = FuncVal(LX + name)
+        d["kind"] = {"lex_number": "after-first-digit", "lex_identifier": "identifier"}.get(name, "any")
+        return d
+    return sh
 
 
 def cases(E):
-    return []
+    return [Case(H + "sublexer_contract", n, shape_sub(n), target=[LX + n], timeout_ms=30000) for n in SUBLEXERS] + [Case(H + "lex_initial_progress_contract", "any input, any position with a character left", shape_scanner, target=[LX + "lex_initial"], timeout_ms=30000),
+            Case(H + "scan_loop_contract", "any input", shape_scan, target=[SC + "scan"], overrides={LX + "lex_initial": "vf.specs.lexmodel.state_function_model"})]
 
 
 def bounded(tier, seed):
     from vf.framework import native_call
     return native_call("b_C15.py", {"tier": tier, "seed": seed}, timeout=3000)
+
+
+def mutants():
+    from vf.pyvc.mutate import textual
+    return [
+        Mutant("lex_initial:unterminated-comment-spins", LX + "lex_initial", textual("            if s.next() is None:\n                raise ScannerException('Unterminated comment', s.get_position())", "            s.next()"), only_harness="lex_initial"),
+        Mutant("lex_opcode:negated-run-without-EOF-sentinel", LX + "lex_opcode", textual("s.accept_run('\\n\\x00', negate=True)", "s.accept_run('\\n', negate=True)"), only_harness="sublexer"),
+        Mutant("lex_initial:unknown-character-not-consumed", LX + "lex_initial", textual("        if s.next() is not None:\n            raise", "        if s.peek() == 'never':\n            raise"), only_harness="lex_initial"),
+        Mutant("lex_quoted_string:newline-not-an-error", LX + "lex_quoted_string", textual("if c == '\\n' or c is None:", "if c == '\\n':"), only_harness="sublexer"),
+    ]
